@@ -23,9 +23,22 @@
 (* groups with one member and same-operator chains, nothing else.             *)
 (*                                                                           *)
 (* Verdicts.  ok: the text denotes these rules.  ~ok: ill-formed, class err. *)
-(* soft # {}: the documentation leaves the case open (listed below); then     *)
-(* either outcome of the real parser is accepted, but an accepted text must   *)
-(* still mean what Denote says when Denote is ok.                             *)
+(* soft # {}: the documentation leaves the case open; then either outcome of  *)
+(* the real parser is accepted, but an accepted text must still mean what     *)
+(* Denote says when Denote is ok.  The open cases:                            *)
+(*   operands_equal_up_to_parentheses  "a or (a)": repeated only after the    *)
+(*       redundant group is removed (token-wise equal operands must fail)     *)
+(*   cds_with_one_operand     "cds((a))", "cds(minscore(a,5))": the grammar   *)
+(*       wants two operands, only the bare "cds(a)" is pinned as an error     *)
+(*   example_values           database other than NCBI, version 0, range b<a  *)
+(*       (the grammar only gives the shape ID ID . INT INT-INT)                *)
+(*   alias_forward_reference  an alias whose definition mentions a name that  *)
+(*       becomes an alias later (binding time is not documented)              *)
+(*   alias_self_reference     a definition mentioning its own name (it stays  *)
+(*       an identifier here; refusing the definition outright is as good)     *)
+(* Leniencies of the code the reference follows: INT is any run of digits     *)
+(* ("0", "007"), minscore(...) may appear inside cds(...), DESCRIPTION may be *)
+(* empty, RELATED names are not checked against the signatures.               *)
 (***************************************************************************)
 EXTENDS Integers, Sequences, FiniteSets, TLC
 
